@@ -404,6 +404,24 @@ def hunts(quick, focus, timeout):
             cfg['hp_mode'] = 'sweep'
             cfg['repro'] = False
             out.append(cfg)
+    # SCALE: long runs, large populations, many variables -- something that accumulates, a counter or index type that overflows, a
+    # threshold that switches to another code path only shows beyond the small sizes of the sampled matrix
+    for o in opts:
+        if quick:
+            shapes = [(4, 2, 300), (130, 2, 3)] if o != 'GP' else [(10, 2, 70)]
+            if len(opts) > 3:
+                shapes = shapes[:2]
+        else:
+            shapes = [(4, 2, 1100), (300, 3, 4), (12, 40, 30), (40, 9, 260), (70, 2, 70)] if o != 'GP' else [(10, 2, 300), (130, 3, 5), (12, 12, 40)]
+        for i, (na, nv, ni) in enumerate(shapes):
+            s_ = WR[o]['spaces'][i % len(WR[o]['spaces'])]
+            c = {'objective': ['sphere', 'shifted', 'linear'][i % 3], 'ret': ['pyfloat', 'npscalar'][i % 2], 'box': ['sym10', 'asym'][i % 2] if nv <= 5 else 'sym10',
+                 'agents': max(na, WR[o]['min_agents']), 'n_variables': nv, 'n_dimensions': [1, 2][i % 2], 'n_iterations': ni, 'draws': 'seeded',
+                 'hp': 'default', 'store_best_only': False, 'hook': 'observe', 'functions': 'arith', 'depth': (1, 3), 'n_terminals': 2}
+            cfg = make(o, s_, c, 9990 + i, max(timeout, 60.0))
+            cfg['timeout'] = max(float(timeout), 60.0)
+            cfg['repro'] = False
+            out.append(cfg)
     # objectives whose values lie on the grid of multiples of EPSILON (1e-10) in a box so small that neighbouring fitnesses differ by
     # exactly one EPSILON: denominators of the form `a - b + EPSILON` / `total + EPSILON` are probed where they can vanish
     for o in opts:
